@@ -575,10 +575,13 @@ func (b Builder) BinOp(op token.Token, x, y Expr) Expr {
 				b.InlineCall(b.Pkg.rtFunc("AssertNegativeShift"), check)
 			}
 			xsize, ysize := b.Prog.SizeOf(x.Type), b.Prog.SizeOf(y.Type)
+			// Judge "count >= width" on the count in its own type: converting a
+			// wider count to the operand's width first would truncate it
+			// (uint8(1) << uint64(256) must be 0, not 1).
+			overflows := llvm.CreateICmp(b.impl, llvm.IntUGE, y.impl, llvm.ConstInt(y.ll, xsize*8, false))
 			if xsize != ysize {
 				y = b.Convert(x.Type, y)
 			}
-			overflows := llvm.CreateICmp(b.impl, llvm.IntUGE, y.impl, llvm.ConstInt(y.ll, xsize*8, false))
 			xzero := llvm.ConstInt(x.ll, 0, false)
 			if op == token.SHL {
 				rhs := llvm.CreateShl(b.impl, x.impl, y.impl)
